@@ -2,6 +2,7 @@ package props
 
 import (
 	"fmt"
+	"go.pennock.tech/tabular/length"
 	stdhtml "html"
 	"regexp"
 	"strings"
@@ -201,8 +202,8 @@ func c08Random(c *Ctx, i int, r *gen.R) {
 	if r.Chance(1, 15) {
 		hdr = 2
 	}
-	spec := r.Table(gen.TableOpts{MaxCols: 5, MaxRows: 6, Header: hdr, ZeroHeaderOK: true, MinCols: 0, Noise: gen.NoiseSkipable | gen.NoiseCallbacks | gen.NoiseAlignElsewhere,
-		Item: func(r *gen.R) gen.ItemSpec { return r.TextItem(c08Fam, 6) }})
+	spec := r.Table(gen.TableOpts{MaxCols: 5, MaxRows: 6, Header: hdr, ZeroHeaderOK: true, MinCols: 0, Noise: gen.NoiseSkipable | gen.NoiseCallbacks | gen.NoiseFailingCallbacks | gen.NoiseAlignElsewhere,
+		Item: func(r *gen.R) gen.ItemSpec { return r.TextItemSized(c08Fam, 6, length.StringCells) }})
 	cs := &c08Case{Table: spec, Aligns: make([]int, spec.NCols()+1)}
 	if r.Chance(3, 4) {
 		for k := range cs.Aligns {
